@@ -230,11 +230,11 @@ func (r *RequireModule) loadModule(path string) (*js.Object, error) {
 	if module == nil {
 		module = r.createModuleObject()
 		r.modules[path] = module
-		err := r.loadModuleFile(path, module)
+		found, err := r.loadModuleFile(path, module)
 		if err != nil {
 			r.forget(path, module)
 			module = nil
-			if errors.Is(err, ModuleFileDoesNotExistError) {
+			if !found {
 				err = nil
 			}
 		}
@@ -259,17 +259,19 @@ func (r *RequireModule) forget(path string, module *js.Object) {
 	}
 }
 
-func (r *RequireModule) loadModuleFile(path string, jsModule *js.Object) error {
+// loadModuleFile reports found = false only when the source loader says that the file does not exist: an error
+// raised while the module body runs is the module's own, whatever Go error it may wrap.
+func (r *RequireModule) loadModuleFile(path string, jsModule *js.Object) (found bool, err error) {
 
 	prg, err := r.r.getCompiledSource(path)
 
 	if err != nil {
-		return err
+		return !errors.Is(err, ModuleFileDoesNotExistError), err
 	}
 
 	f, err := r.runtime.RunProgram(prg)
 	if err != nil {
-		return err
+		return true, err
 	}
 
 	if call, ok := js.AssertFunction(f); ok {
@@ -282,13 +284,13 @@ func (r *RequireModule) loadModuleFile(path string, jsModule *js.Object) error {
 		// "module" variable (Nodejs capable).
 		_, err = call(jsExports, jsExports, jsRequire, jsModule, r.runtime.ToValue(path), r.runtime.ToValue(filepath.Dir(path)))
 		if err != nil {
-			return err
+			return true, err
 		}
 	} else {
-		return InvalidModuleError
+		return true, InvalidModuleError
 	}
 
-	return nil
+	return true, nil
 }
 
 func isFileOrDirectoryPath(path string) bool {
